@@ -38,6 +38,7 @@ def monitors_child(rec):
     warnings.simplefilter('ignore')
     rng = random.Random(rec.seed + 300); nrng = np.random.default_rng(rec.seed + 301)
     quick = rec.tier == 'quick'
+    DD = child.Distinct().wrap(M, 'crps')
     child.progress('crps'); ev = 0; bad = 0
     tol = lambda v: 1e-10 * max(1.0, abs(v))
     for _ in range(300 if quick else 3000):
@@ -86,7 +87,7 @@ def monitors_child(rec):
             if not all(abs(d5[kk] - d6[kk]) <= 1e-12 * max(1, abs(d6[kk])) for kk in keys):
                 bad += 1; _fail(rec, 'crps', 'missing: a forecast with a missing observation is not ignored', obs=o2.tolist(), ens=ens.tolist())
     rec.bounded_clause('crps: == mean(E|X-y| - 0.5 E|X-X\'|), MAE for one member, decomposition identities, uncertainty == CRPS of the climatology, invariance to member / forecast order, shift, scaling; missing observations ignored',
-                       '1..40 forecasts x 1..25 members: integer lattice (ties), continuous, constant ensembles, observations below / above every ensemble', ev, ev, False, bad)
+                       '1..40 forecasts x 1..25 members: integer lattice (ties), continuous, constant ensembles, observations below / above every ensemble', ev, DD.n('crps'), False, bad)
 
 
 def run(tier):
